@@ -361,15 +361,17 @@ func c05DenseSym(n int) {
 	g := &DenseGraph{NumberOfVertices: n, NumberOfEdges: m, DegreeSequence: deg, Edges: edges}
 	// the model after the edit: want[i][j] as 0/1 bytes over nn vertices
 	nn := n
-	want := make([][]byte, n+1)
+	want := make([][]int, n+1)
 	for i := range want {
-		want[i] = make([]byte, n+1)
+		want[i] = make([]int, n+1)
 	}
 	for i := 0; i < n; i++ {
-		copy(want[i], bit[i])
+		for j := 0; j < n; j++ {
+			want[i][j] = int(bit[i][j])
+		}
 	}
 	what := ""
-	switch rt.Choice("op", 4) {
+	switch rt.Choice("op", 6) {
 	case 0:
 		i, j := rt.Choice("i", n), rt.Choice("j", n)
 		what = "AddEdge"
@@ -401,12 +403,63 @@ func c05DenseSym(n int) {
 				if b > v {
 					b--
 				}
-				want[a][b] = bit[i][j]
+				want[a][b] = int(bit[i][j])
 			}
 		}
 		for i := 0; i < nn; i++ {
 			want[i][i] = 0
 		}
+	case 4:
+		// Copy, then the source is edited: the copy keeps the old graph, the source gets the edit
+		what = "Copy"
+		c := g.Copy().(*DenseGraph)
+		g.AddEdge(0, n-1)
+		g.RemoveEdge(1, 2)
+		c05CheckDenseModel(c, want, n, "dense Copy (symbolic state), after the source was edited")
+		want[0][n-1], want[n-1][0] = 1, 1
+		want[1][2], want[2][1] = 0, 0
+	case 5:
+		// InducedSubgraph (method) / ComplementDense on a list of vertex sequences
+		var V []int
+		switch rt.Choice("V", 5) {
+		case 0:
+			for v := n - 1; v >= 0; v-- {
+				V = append(V, v)
+			}
+		case 1:
+			for v := 0; v < n; v++ {
+				V = append(V, (v+3)%n)
+			}
+		case 2:
+			V = []int{n - 1, 0, n / 2, 2}
+		case 3:
+			V = []int{1}
+		default:
+			V = []int{}
+		}
+		var h *DenseGraph
+		flip := false
+		if rt.Choice("complement", 2) == 1 {
+			what = "ComplementDense of InducedSubgraph"
+			h = ComplementDense(g.InducedSubgraph(append([]int{}, V...)))
+			flip = true
+		} else {
+			what = "InducedSubgraph"
+			h = g.InducedSubgraph(append([]int{}, V...)).(*DenseGraph)
+		}
+		hw := make([][]int, len(V)+1)
+		for i := range hw {
+			hw[i] = make([]int, len(V)+1)
+		}
+		for i := range V {
+			for j := range V {
+				if i != j {
+					hw[i][j] = int(bit[V[i]][V[j]])
+				}
+			}
+		}
+		c05CheckDenseModelX(h, hw, len(V), flip, "dense "+what+" (symbolic state)")
+		// the source is untouched
 	default:
 		lists := [][]int{{}, {0}, {n - 1}, {n / 2, 1}, {n - 1, 0, n / 2}}
 		all := make([]int, n)
@@ -422,14 +475,28 @@ func c05DenseSym(n int) {
 			want[u][n], want[n][u] = 1, 1
 		}
 	}
-	rt.Check(g.N() == nn, "dense "+what+" (symbolic state): N() wrong")
+	c05CheckDenseModel(g, want, nn, "dense "+what+" (symbolic state)")
+	rt.Reach("end")
+}
+
+// c05CheckDenseModel: N, M, Degrees, Edges length and IsEdge (both orders) of g agree, as
+// formulas, with the 0/1 model want on nn vertices.
+func c05CheckDenseModel(g *DenseGraph, want [][]int, nn int, what string) {
+	c05CheckDenseModelX(g, want, nn, false, what)
+}
+
+// With compl the graph must be the complement of the model: IsEdge == (want == 0), degree
+// == (nn-1) - model degree, M == nn(nn-1)/2 - model size (sums kept in the shape the solver
+// decides by normalisation rather than by adder equivalence).
+func c05CheckDenseModelX(g *DenseGraph, want [][]int, nn int, compl bool, what string) {
+	rt.Check(g.N() == nn, what+": N() wrong")
 	if g.N() != nn {
 		return
 	}
 	wm := 0
 	degs := g.Degrees()
-	rt.Check(len(degs) == nn, "dense "+what+" (symbolic state): Degrees() has the wrong length")
-	rt.Check(len(g.Edges) == nn*(nn-1)/2, "dense "+what+" (symbolic state): Edges has the wrong length")
+	rt.Check(len(degs) == nn, what+": Degrees() has the wrong length")
+	rt.Check(len(g.Edges) == nn*(nn-1)/2, what+": Edges has the wrong length")
 	if len(degs) != nn || len(g.Edges) != nn*(nn-1)/2 {
 		return
 	}
@@ -439,17 +506,22 @@ func c05DenseSym(n int) {
 			if i == j {
 				continue
 			}
-			wd += int(want[i][j])
+			wd += want[i][j]
 			if i < j {
-				wm += int(want[i][j])
-				rt.Check(g.IsEdge(i, j) == (want[i][j] > 0), "dense "+what+" (symbolic state): IsEdge differs from the model")
-				rt.Check(g.IsEdge(j, i) == (want[i][j] > 0), "dense "+what+" (symbolic state): IsEdge is not symmetric")
+				wm += want[i][j]
+				rt.Check(g.IsEdge(i, j) == ((want[i][j] > 0) != compl), what+": IsEdge differs from the model")
+				rt.Check(g.IsEdge(j, i) == ((want[i][j] > 0) != compl), what+": IsEdge is not symmetric")
 			}
 		}
-		rt.Check(degs[i] == wd, "dense "+what+" (symbolic state): Degrees() differs from adjacency")
+		if compl {
+			wd = (nn - 1) - wd
+		}
+		rt.Check(degs[i] == wd, what+": Degrees() differs from adjacency")
 	}
-	rt.Check(g.M() == wm, "dense "+what+" (symbolic state): M() differs from the number of edges")
-	rt.Reach("end")
+	if compl {
+		wm = nn*(nn-1)/2 - wm
+	}
+	rt.Check(g.M() == wm, what+": M() differs from the number of edges")
 }
 
 func H_c05_densesym_q() { c05DenseSym(12) }
